@@ -111,6 +111,29 @@ func TestVerifC46Routing(t *testing.T) {
 			}
 		}
 	}
+	// virtual hosts with TWO domains, weaker-first and stronger-first, before and after a single-domain virtual
+	// host: the best match is taken over all domains of all virtual hosts
+	sub := []string{"*", "ab", "a*", "ab*", "*b", "*ab", "aab", "b*"}
+	if thorough {
+		sub = doms
+	}
+	for _, h := range []string{"ab", "aab"} {
+		for _, d1 := range sub {
+			for _, d2 := range sub {
+				if d1 == d2 {
+					continue
+				}
+				for _, d3 := range sub {
+					vhost(h, [][]string{{d1, d2}, {d3}})
+					vhost(h, [][]string{{d3}, {d1, d2}})
+				}
+			}
+		}
+	}
+	vhost("foo.example.com", [][]string{{"*", "foo.example.com"}, {"*.example.com"}})
+	vhost("foo.example.com", [][]string{{"foo.example.com", "*"}, {"*.example.com"}})
+	vhost("foo.example.com", [][]string{{"*.example.com"}, {"*", "foo.example.com"}})
+	vhost("foo.example.com", [][]string{{"foo.*", "*.com"}, {"*.example.com"}, {"*", "foo.example.*"}})
 	long := []string{"*", "*.example.com", "*.com", "foo.example.com", "foo.*", "foo.example.*", "*example.com", "foo.example.com*", "*foo.example.com", "bar.example.com", "*m", "f*"}
 	for i := 0; i < n; i++ {
 		var vhs [][]string
